@@ -77,6 +77,11 @@ def spine(ctx) -> list[FuncInfo]:
 
 
 ALLOWED_NARROW: dict[str, str] = {}
+HOF_ALLOWED_CALLEES = {"pyxel.calibration.archipelago_datatree:ArchipelagoDataTree._build.<locals>.create_island"}
+HOF_ALLOWED = {
+    "pyxel.calibration.archipelago_datatree:ArchipelagoDataTree._build#executor.map(create_island)": "models run inside pg.island(...): pygmo converts Python exceptions raised by the problem into its own error types, a StopIteration cannot cross that boundary",
+    "pyxel.calibration.archipelago_datatree:ArchipelagoDataTree._build#map(create_island)": "same as above (sequential branch)",
+}
 
 
 def _is_import_only(body: list[ast.stmt]) -> bool:
@@ -115,6 +120,7 @@ def r1_no_swallowing_handler(ctx):
 def r2_no_masking_constructs(ctx):
     """No spine function uses contextlib.suppress, a `finally` that returns/breaks/continues, or catches and converts errors into warnings/logs only."""
     sp = spine(ctx)
+    sp_quals = {x.qual for x in sp}
     n = 0
     for f in sp:
         n += 1
@@ -132,6 +138,33 @@ def r2_no_masking_constructs(ctx):
                     for y in ast.walk(x):
                         if isinstance(y, (ast.Return, ast.Break, ast.Continue)):
                             bad.append((y, f"`{type(y).__name__.lower()}` inside finally discards the in-flight exception"))
+        # lazily driven iteration (map/filter/...) over a function that runs models: a StopIteration
+        # raised inside a run is read as "iterator exhausted" and silently truncates the runs
+        aliases = {}
+        for st_ in walk_local(f.node):
+            if isinstance(st_, (ast.Assign, ast.AnnAssign)) and isinstance(getattr(st_, "value", None), ast.Call) and call_name(st_.value).split(".")[-1] == "partial" and st_.value.args:
+                tgt_ = st_.targets[0] if isinstance(st_, ast.Assign) else st_.target
+                fv = ctx.R._func_value(f, st_.value.args[0], ctx.R.env(f)) if isinstance(st_.value.args[0], (ast.Name, ast.Attribute)) else None
+                if isinstance(tgt_, ast.Name) and fv is not None:
+                    aliases[tgt_.id] = fv
+        for c_ in [x for x in walk_local(f.node) if isinstance(x, ast.Call)]:
+            hof = call_name(c_)
+            if hof.split(".")[-1] not in ("map", "filter", "starmap", "imap", "takewhile", "dropwhile", "accumulate", "reduce") or not c_.args:
+                continue
+            a0 = c_.args[0]
+            callee = aliases.get(a0.id) if isinstance(a0, ast.Name) and a0.id in aliases else (ctx.R._func_value(f, a0, ctx.R.env(f)) if isinstance(a0, (ast.Name, ast.Attribute)) else None)
+            if isinstance(a0, ast.Call) and call_name(a0).split(".")[-1] == "partial" and a0.args and isinstance(a0.args[0], (ast.Name, ast.Attribute)):
+                callee = ctx.R._func_value(f, a0.args[0], ctx.R.env(f))
+            if callee is None:
+                continue
+            key = f"{f.qual}#{hof}({callee.name})"
+            runs_models = callee.qual in sp_quals or MFC in ctx.R.reachable_from([callee.qual]) or callee.qual in HOF_ALLOWED_CALLEES
+            if not runs_models:
+                continue
+            if key in HOF_ALLOWED:
+                ctx.ok(key, HOF_ALLOWED[key], where=f, node=c_)
+            else:
+                bad.append((c_, f"{hof}(...) drives {callee.name}: an exception of type StopIteration raised by a model would silently end the iteration instead of failing the run"))
         ctx.check(not bad, f"{f.qual}#masking", "no masking construct" if not bad else bad[0][1], where=f, node=bad[0][0] if bad else f.node)
     # dask: results must be computed by the caller (lazy arrays re-raise at compute); nothing on the
     # spine may pre-compute inside a handler-protected region: covered by R1.
@@ -155,7 +188,7 @@ def _notes(h: ast.ExceptHandler):
 def r3_annotation_present(ctx):
     """ModelGroup.run's handler adds a note naming the group (self._name) and the model (model.name); _run_single_pipeline's handler notes every (key, value) of the run's parameters; fitness notes the decision vector; each then re-raises the same exception."""
     f = ctx.func("pyxel.pipelines.model_group:ModelGroup.run")
-    t = _handler_of(f, lambda c: isinstance(c.func, ast.Name) and enclosing_loop(c) is not None and isinstance(enclosing_loop(c), ast.For) and isinstance(enclosing_loop(c).target, ast.Name) and c.func.id == enclosing_loop(c).target.id)
+    t = _handler_of(f, lambda c: isinstance(c.func, ast.Name) and isinstance(enclosing_loop(c), ast.For) and c.func.id in {x.id for x in ast.walk(enclosing_loop(c).target) if isinstance(x, ast.Name)})
     if t is None:
         ctx.fail(f.qual + "#note", "the model call is not protected by an annotating handler", where=f, node=f.node)
     else:
@@ -164,9 +197,10 @@ def r3_annotation_present(ctx):
         notes = _notes(hs[0]) if ok else []
         txt = " ".join(norm(expand(f, n.args[0])) for n in notes if n.args)
         lp = enclosing_loop(t)
-        mv = lp.target.id if isinstance(lp, ast.For) and isinstance(lp.target, ast.Name) else "model"
+        mcalls = [c for s_ in t.body for c in ast.walk(s_) if isinstance(c, ast.Call) and isinstance(c.func, ast.Name)]
+        mv = mcalls[0].func.id if mcalls else "model"
         okn = ok and "self._name" in txt and f"{mv}.name" in txt
-        ctx.check(okn, f.qual + "#note", "note names the group and the model" if okn else f"the error note does not name both the group and the model (note text: {txt[:80] or 'none'})", where=f, node=notes[0] if notes else t)
+        ctx.check(okn, f.qual + "#note", "note names the group and the model that was called" if okn else f"the error note does not name the group (self._name) and the failing model ({mv}.name) directly (note text: {txt[:80] or 'none'})", where=f, node=notes[0] if notes else t)
         bare = [x for x in walk_ordered(hs[0]) if isinstance(x, ast.Raise)] if ok else []
         okr = ok and len(bare) >= 1 and all(x.exc is None for x in bare)
         ctx.check(okr, f.qual + "#reraise", "re-raises the original exception (bare raise)" if okr else "the handler raises a different exception: original type/message lost", where=f, node=bare[0] if bare else t)
